@@ -32,6 +32,8 @@ pub enum SrcKind {
     DynCrop,
     /// TypedCroppedImage over a TypedCroppedImage over a TypedImageRef
     Nested,
+    /// `UserView`: a view type defined in the harness with the trait's provided methods left at their defaults
+    User,
 }
 
 #[derive(Clone, Copy, Debug, PartialEq, Eq, Hash)]
@@ -50,9 +52,11 @@ pub enum DstKind {
     DynCropMut,
     /// TypedCroppedImageMut over TypedCroppedImageMut over TypedImage
     NestedMut,
+    /// `UserViewMut`: user-defined mutable view (default split_by_*_mut through UnsafeImageMut)
+    UserMut,
 }
 
-pub const SRC_KINDS: [SrcKind; 10] = [
+pub const SRC_KINDS: [SrcKind; 11] = [
     SrcKind::Ref,
     SrcKind::RefBuf,
     SrcKind::Typed,
@@ -63,8 +67,9 @@ pub const SRC_KINDS: [SrcKind; 10] = [
     SrcKind::CropOwned,
     SrcKind::DynCrop,
     SrcKind::Nested,
+    SrcKind::User,
 ];
-pub const DST_KINDS: [DstKind; 7] = [
+pub const DST_KINDS: [DstKind; 8] = [
     DstKind::Typed,
     DstKind::TypedBuf,
     DstKind::DynImage,
@@ -72,11 +77,12 @@ pub const DST_KINDS: [DstKind; 7] = [
     DstKind::CropMutOwned,
     DstKind::DynCropMut,
     DstKind::NestedMut,
+    DstKind::UserMut,
 ];
 
 impl SrcKind {
     pub fn is_crop(self) -> bool {
-        matches!(self, SrcKind::Crop | SrcKind::CropOwned | SrcKind::DynCrop | SrcKind::Nested)
+        matches!(self, SrcKind::Crop | SrcKind::CropOwned | SrcKind::DynCrop | SrcKind::Nested | SrcKind::User)
     }
     pub fn is_dyn(self) -> bool {
         matches!(self, SrcKind::DynRef | SrcKind::DynImage | SrcKind::DynVec | SrcKind::DynCrop)
@@ -84,7 +90,7 @@ impl SrcKind {
 }
 impl DstKind {
     pub fn is_crop(self) -> bool {
-        matches!(self, DstKind::CropMut | DstKind::CropMutOwned | DstKind::DynCropMut | DstKind::NestedMut)
+        matches!(self, DstKind::CropMut | DstKind::CropMutOwned | DstKind::DynCropMut | DstKind::NestedMut | DstKind::UserMut)
     }
     pub fn is_dyn(self) -> bool {
         matches!(self, DstKind::DynImage | DstKind::DynCropMut)
@@ -104,7 +110,7 @@ pub fn pair_supported(s: SrcKind, d: DstKind) -> bool {
     }
     matches!(
         (s, d),
-        (_, D::Typed) | (S::Ref, _) | (S::Crop, D::CropMut) | (S::CropOwned, D::CropMutOwned) | (S::Nested, D::NestedMut) | (S::RefBuf, D::TypedBuf)
+        (_, D::Typed) | (S::Ref, _) | (S::Crop, D::CropMut) | (S::CropOwned, D::CropMutOwned) | (S::Nested, D::NestedMut) | (S::RefBuf, D::TypedBuf) | (S::User, D::UserMut)
     )
 }
 
@@ -271,6 +277,10 @@ pub fn resize_through<P: Px>(
                     let mut d = TypedCroppedImageMut::new(outer, dl2, dt2, dw, dh).expect("dst NestedMut");
                     r.resize_typed(&s, &mut d, opts)
                 }
+                D::UserMut => {
+                    let mut d = UserViewMut::new(&mut db.buf, dp.pw, dp.left, dp.top, dw, dh);
+                    r.resize_typed(&s, &mut d, opts)
+                }
                 _ => unreachable!(),
             }
         }};
@@ -332,6 +342,16 @@ pub fn resize_through<P: Px>(
                     let dparent = TypedImage::<P>::from_pixels_slice(dp.pw, dp.ph, &mut db.buf).expect("dst parent");
                     let douter = TypedCroppedImageMut::new(dparent, dl1, dt1, dw1, dh1).expect("dst outer");
                     let mut d = TypedCroppedImageMut::new(douter, dl2, dt2, dw, dh).expect("dst NestedMut");
+                    r.resize_typed(&s, &mut d, opts)
+                }
+                _ => to_typed_dst!(s),
+            }
+        }
+        S::User => {
+            let s = UserView::new(&sb.buf, sp.pw, sp.left, sp.top, sw, sh);
+            match dk {
+                D::UserMut => {
+                    let mut d = UserViewMut::new(&mut db.buf, dp.pw, dp.left, dp.top, dw, dh);
                     r.resize_typed(&s, &mut d, opts)
                 }
                 _ => to_typed_dst!(s),
@@ -458,6 +478,10 @@ macro_rules! with_typed_dst {
                 let mut $d = TypedCroppedImageMut::new(outer, dl2, dt2, dw, dh).expect("dst NestedMut");
                 $body
             }
+            __DK::UserMut => {
+                let mut $d = $crate::containers::UserViewMut::<$P>::new(&mut db.buf, dp.pw, dp.left, dp.top, dw, dh);
+                $body
+            }
             _ => panic!("not a typed destination kind"),
         }
     }};
@@ -523,6 +547,10 @@ macro_rules! with_typed_src {
                 let $s = TypedCroppedImage::from_ref(&parent, sp.left, sp.top, sb.w, sb.h).expect("src Crop");
                 $body
             }
+            __SK::User => {
+                let $s = $crate::containers::UserView::<$P>::new(&sb.buf, sp.pw, sp.left, sp.top, sb.w, sb.h);
+                $body
+            }
             _ => {
                 let $s = TypedImageRef::<$P>::new(sb.w, sb.h, &sb.buf).expect("src Ref");
                 $body
@@ -534,5 +562,106 @@ macro_rules! with_typed_src {
 impl<P: Px> Backing<P> {
     pub fn outer_pub(&self) -> (u32, u32, u32, u32, u32, u32) {
         self.outer()
+    }
+}
+
+// ---------------------------------------------------------------- a user-defined view
+
+/// A view type defined outside the library, the way a user wraps a foreign buffer: it implements only the *required*
+/// methods of `ImageView` / `ImageViewMut`, so every provided method (`iter_2_rows`, `iter_4_rows`,
+/// `iter_rows_with_step`, `split_by_height/width` and their `_mut` forms through `UnsafeImageMut`) is the trait's
+/// default implementation - code that none of the library's own containers executes for the height splits.
+/// Rows are exactly `w` pixels long (the strictest form of the trait's safety contract), taken at `(left, top)` from
+/// a parent of stride `pw`.
+pub struct UserView<'a, P: Px> {
+    buf: &'a [P],
+    pw: usize,
+    left: usize,
+    top: usize,
+    w: u32,
+    h: u32,
+}
+
+impl<'a, P: Px> UserView<'a, P> {
+    pub fn new(buf: &'a [P], pw: u32, left: u32, top: u32, w: u32, h: u32) -> UserView<'a, P> {
+        assert!(left as u64 + w as u64 <= pw as u64 && (top as u64 + h as u64) * pw as u64 <= buf.len() as u64);
+        UserView { buf, pw: pw as usize, left: left as usize, top: top as usize, w, h }
+    }
+    pub fn over(b: &'a Backing<P>) -> UserView<'a, P> {
+        UserView::new(&b.buf, b.place.pw, b.place.left, b.place.top, b.w, b.h)
+    }
+}
+
+unsafe impl<'a, P: Px> ImageView for UserView<'a, P> {
+    type Pixel = P;
+    fn width(&self) -> u32 {
+        self.w
+    }
+    fn height(&self) -> u32 {
+        self.h
+    }
+    fn iter_rows(&self, start_row: u32) -> impl Iterator<Item = &[P]> {
+        let (pw, left, top, w) = (self.pw, self.left, self.top, self.w as usize);
+        let buf = self.buf;
+        (start_row.min(self.h)..self.h).map(move |y| {
+            let o = (top + y as usize) * pw + left;
+            &buf[o..o + w]
+        })
+    }
+}
+
+pub struct UserViewMut<'a, P: Px> {
+    buf: &'a mut [P],
+    pw: usize,
+    left: usize,
+    top: usize,
+    w: u32,
+    h: u32,
+}
+
+impl<'a, P: Px> UserViewMut<'a, P> {
+    pub fn new(buf: &'a mut [P], pw: u32, left: u32, top: u32, w: u32, h: u32) -> UserViewMut<'a, P> {
+        assert!(left as u64 + w as u64 <= pw as u64 && (top as u64 + h as u64) * pw as u64 <= buf.len() as u64);
+        UserViewMut { buf, pw: pw as usize, left: left as usize, top: top as usize, w, h }
+    }
+    pub fn over(b: &'a mut Backing<P>) -> UserViewMut<'a, P> {
+        let (p, w, h) = (b.place, b.w, b.h);
+        UserViewMut::new(&mut b.buf, p.pw, p.left, p.top, w, h)
+    }
+}
+
+unsafe impl<'a, P: Px> ImageView for UserViewMut<'a, P> {
+    type Pixel = P;
+    fn width(&self) -> u32 {
+        self.w
+    }
+    fn height(&self) -> u32 {
+        self.h
+    }
+    fn iter_rows(&self, start_row: u32) -> impl Iterator<Item = &[P]> {
+        let (pw, left, top, w) = (self.pw, self.left, self.top, self.w as usize);
+        let buf: &[P] = self.buf;
+        (start_row.min(self.h)..self.h).map(move |y| {
+            let o = (top + y as usize) * pw + left;
+            &buf[o..o + w]
+        })
+    }
+}
+
+unsafe impl<'a, P: Px> fr::ImageViewMut for UserViewMut<'a, P> {
+    fn iter_rows_mut(&mut self, start_row: u32) -> impl Iterator<Item = &mut [P]> {
+        let (pw, left, top, w, h) = (self.pw, self.left, self.top, self.w as usize, self.h as usize);
+        let start = (start_row as usize).min(h);
+        // disjoint mutable rows: walk the parent row by row (a zero stride means zero-width rows)
+        let mut rest: &mut [P] = if pw == 0 { &mut [] } else { &mut self.buf[(top + start) * pw..] };
+        (start..h).map(move |_| {
+            if pw == 0 {
+                return <&mut [P]>::default();
+            }
+            let taken = std::mem::take(&mut rest);
+            let (row, tail) = taken.split_at_mut(pw.min(taken.len()));
+            rest = tail;
+            &mut row[left..left + w]
+        })
     }
 }
